@@ -82,7 +82,11 @@ def analyse(chk, repo, modules, label: str) -> int:
                     found=[sorted(c) for c in comps],
                 )
                 continue
-            why = "elements whose hash depends on PYTHONHASHSEED" if s.stable is False else "elements of unknown type (treated as hash-unstable)"
+            if s.stable is not False:
+                # the element type could not be inferred: nothing is known, nothing is claimed (the check stops being a verdict)
+                chk.error("order-taint", site, f"{desc}: element type not inferred; cannot decide whether the iteration order depends on PYTHONHASHSEED")
+                continue
+            why = "elements whose hash depends on PYTHONHASHSEED"
             chk.violation(
                 "order-taint",
                 site,
